@@ -222,7 +222,16 @@ func (x *Exec) checkPosts(fn *ssa.Function, ct *Contract, outs []Outcome) {
 				return
 			}
 			g := and(okGuard, guard)
-			x.addOblAt(o.st, "post", "events_"+cl.Tag, cl.Text, implies(g, x.eventsEqual(o.st, evs)), cl.Props, pi)
+			x.addOblAt(o.st, "post", "events_"+cl.Tag, cl.Text, implies(g, x.eventsEqual(o.st, evs, false)), cl.Props, pi)
+		}
+		for _, cl := range ct.Of("emits_filtered") {
+			guard, evs, err := x.evalEmits(cl, env, x.topLets)
+			if err != nil {
+				x.fail("emits_filtered: %v", err)
+				return
+			}
+			g := and(okGuard, guard)
+			x.addOblAt(o.st, "post", "events_"+cl.Tag, cl.Text, implies(g, x.eventsEqual(o.st, evs, true)), cl.Props, pi)
 		}
 		if len(ct.Of("assigns")) > 0 {
 			x.checkFrame(ct, env, o, okGuard, pi)
@@ -256,23 +265,45 @@ func (x *Exec) addOblAt(st *State, kind, tag, clause, goal string, props []strin
 }
 
 // eventsEqual: the events emitted on the root handle equal the expected list.
-func (x *Exec) eventsEqual(st *State, want []Event) string {
+func (x *Exec) eventsEqual(st *State, want []Event, filtered bool) string {
 	s := x.store(st, 0)
 	if s.EvOpaque {
 		return "false"
 	}
-	if len(s.Events) != len(want) {
+	got := s.Events
+	if filtered {
+		// compare only the emitted events whose type is mentioned in the expectation
+		types := map[string]bool{}
+		var w2 []Event
+		for _, w := range want {
+			types[w.Ty] = true
+			if !w.None {
+				w2 = append(w2, w)
+			}
+		}
+		want = w2
+		got = nil
+		for _, ev := range s.Events {
+			if types[ev.Ty] {
+				got = append(got, ev)
+			}
+		}
+	}
+	if len(got) != len(want) {
 		return "false"
 	}
 	var cs []string
-	for i, ev := range s.Events {
+	for i, ev := range got {
 		w := want[i]
 		if len(ev.KV) != len(w.KV) {
 			return "false"
 		}
 		cs = append(cs, eq(ev.Ty, w.Ty))
 		for j := range ev.KV {
-			cs = append(cs, eq(ev.KV[j][0], w.KV[j][0]), eq(ev.KV[j][1], w.KV[j][1]))
+			cs = append(cs, eq(ev.KV[j][0], w.KV[j][0]))
+			if w.KV[j][1] != "" {
+				cs = append(cs, eq(ev.KV[j][1], w.KV[j][1]))
+			}
 		}
 	}
 	return and(cs...)
@@ -371,6 +402,20 @@ func (x *Exec) checkFrame(ct *Contract, env *cenv, o Outcome, okGuard string, pi
 		}
 		goal := implies(and(guard, and(diff...)), eq(app("select", final, k), app("select", initial, k)))
 		x.addOblAt(o.st, "frame", n, "assigns: "+n+" changes only at the listed keys", goal, []string{}, pi)
+	}
+	if root.Havocked {
+		for _, n := range sortedKeys(x.ghostTy) {
+			if _, ok := root.G[n]; ok {
+				continue
+			}
+			if t := targets[n]; t != nil && t.all {
+				continue
+			}
+			if targets["\\everything"] != nil {
+				continue
+			}
+			x.addOblAt(o.st, "frame", n, "assigns: "+n+" may have been modified by an unconstrained callee", implies(guard, "false"), nil, pi)
+		}
 	}
 	if !eventsAllowed && (len(root.Events) > 0 || root.EvOpaque) {
 		x.addOblAt(o.st, "frame", "events", "assigns: no event may be emitted", implies(guard, "false"), nil, pi)
